@@ -12,7 +12,7 @@ re-checked by the kernel each time:
   this obligation until it is added to `harness/guards_map.json`);
 * `expected_guarded` / `invalid_rejected` — for every class and every violation its documentation (and
   the property text) lists as rejected, the class has a guard carrying that flag, hence *every* input
-  descriptor with that violation (all `2^21` combinations with other violations) evaluates to
+  descriptor with that violation (all `2^23` combinations with other violations) evaluates to
   `valueError` — except the literal list `knownMissing`, which mirrors `known_findings.json`;
 * `valid_accepted` — with no violation flag set, no guard fires.
 
@@ -90,8 +90,8 @@ example : (guardsOf "kFlowDecomp").length > 20 := by decide +kernel
 /-- fixture: a constructor with a weight check but no check of `k` (the shape of the finding
 `C19-k-nonpositive-error-models`) -/
 def fixture : ClassGuards :=
-  ⟨"Fixture", [⟨"Fixture", "Fixture.__init__", "data[flow_attr] < 0", .negativeWeight, .construct⟩,
-               ⟨"Fixture", "Fixture.__init__", "weight_type not in [int, float]", .badWeightType, .construct⟩]⟩
+  ⟨"Fixture", [⟨"Fixture", "Fixture.__init__", "data[flow_attr] < 0", "", .negativeWeight, .construct⟩,
+               ⟨"Fixture", "Fixture.__init__", "weight_type not in [int, float]", "", .badWeightType, .construct⟩]⟩
 
 example : outcome fixture { kNonPositive := true } = .other := by decide
 example : outcome fixture { kNonPositive := true, badWeightType := true } = .valueError := by decide
